@@ -516,7 +516,14 @@ OFTF_B = 0.06
 def _types():
     refl = {'lrefl': {'z_lo': 0.0, 'z_hi': 0.1, 'vf_coolant': 0.3},
             'urefl': {'z_lo': 0.3, 'z_hi': 0.4, 'vf_coolant': 0.3, 'model': '6node'}}
+    def outer_first(d):
+        # the flat-to-flat values of a two-duct assembly with the OUTER duct listed first (the order is free)
+        f = sorted(d['duct_ftf'])
+        return dict(d, duct_ftf=[f[2], f[3], f[0], f[1]])
     return {
+        'M5d': outer_first(S.design(5, oftf=OFTF_B, pd=1.08, clearance='loose', ducts=2, duct_t=[0.0015, 0.003], regions=refl)),
+        'U5d': outer_first(S.design(5, oftf=OFTF_B, pd=1.08, clearance='loose', ducts=2, duct_t=[0.0015, 0.003],
+                                    lowfi={'model': 'simple'})),
         'R2': S.design(2, oftf=OFTF_B),
         'R3': S.design(3, oftf=OFTF_B),
         'R3c': S.design(3, oftf=OFTF_B, pd=1.08, clearance='loose'),
@@ -542,6 +549,8 @@ LAYOUTS = [
     ('R3 R3 R3 R3 R3 R3 R3', 'flow'),
     ('R2 R9 R5c R3c - M6c R2', 'duct_average'),
     ('M6c M4 M4 M6c - U4n R9', 'flow'),
+    ('M5d R3 U5d R3 - R5c R3', 'flow'),
+    ('U5d M5d R3 - M5d R2 U5d', 'no_flow'),
 ]
 LAYOUTS_THOROUGH = [
     ('R3 R5c U2 M4 - R5c R3 R9 R9 U2 - R3 R3c M6c R7s R2 - U4n R5c', 'flow'),
